@@ -368,11 +368,17 @@ int main(int argc, char ** argv) {
         std::map<std::pair<long, long>, json> inst;
         auto cases = read_ndjson(argv[2]);
         for (auto & c : cases) if (c["kind"] == "instance") inst[{c["tid"].get<long>(), c["v"].get<long>()}] = c;
+        static std::string g_current;        // for the watchdog: a loader that does not come back within 60 s hangs
+        std::signal(SIGALRM, [](int) {
+            const char * a = "MISMATCH io/load-hangs "; (void)!write(1, a, std::strlen(a)); (void)!write(1, g_current.data(), g_current.size());
+            const char * b = "\nSUMMARY {\"cases\":0,\"checks\":0,\"mismatches\":1,\"stopped_early\":\"loader hangs\"}\n"; (void)!write(1, b, std::strlen(b)); _exit(1); });
         for (auto & c : cases) {
             ++g_cases;
             std::size_t tid = c["tid"].get<std::size_t>();
             const json & x = inst[{c["tid"].get<long>(), c["v"].get<long>()}];
             json ctx = {{"type", tid}, {"valueset", c["v"]}};
+            g_current = json({{"type", tid}, {"valueset", c["v"]}, {"case_kind", c["kind"]}, {"case", c.contains("t2") ? c["t2"] : json()}}).dump();
+            std::cout.flush(); alarm(60);
             std::string bytes = dump_of(tid, x["layers"]);
             if (c["kind"] == "instance") {
                 // byte-exact against the specification's independent definition of the format
@@ -419,6 +425,7 @@ int main(int argc, char ** argv) {
                 }
             }
         }
+        alarm(0);
         summary();
     } else if (mode == "faults") {
         std::map<std::pair<long, long>, json> inst;
